@@ -7,6 +7,7 @@ from hypothesis import strategies as st
 from mv import hperm
 
 from mv import gen_geom, geom, mf, repl
+from mv.quiet import silenced
 from mv.runner import HypPart, Violation
 
 PROPERTY = "C05"
@@ -221,6 +222,42 @@ def oracle(case, stats):
     except Exception as e:
         raise Violation("exception-in-replace", "after joint rigid motion of both patterns: %s: %r" % (type(e).__name__, e))
     check_result(case, groups, new2, stats, "run with jointly moved patterns", k2)
+    # both patterns cut out of ONE coordinate table of the caller (numpy slices: search = rows [0, n), replacement = rows
+    # [n - shared, end), so the atoms they have in common are the same rows), then moved together with Atoms.translate()
+    if case["seeds"][1] % 3 == 0 and len(case["rpos"]):
+        from mofun import Atoms
+        shared_r = sorted(sh_)
+        sp_order = list(s_only_) + [sh_[r_] for r_ in shared_r]
+        rp_order = shared_r + list(r_only_)
+        cv = dict(case)
+        cv["ppos"] = [case["ppos"][i] for i in sp_order]
+        cv["pels"] = [case["pels"][i] for i in sp_order]
+        cv["rpos"] = [case["rpos"][j] for j in rp_order]
+        cv["rels"] = [case["rels"][j] for j in rp_order]
+        cv["rcharges"] = [case["rcharges"][j] for j in rp_order]
+        cv["rgroups"] = [case["rgroups"][j] for j in rp_order]
+        cv["shared"] = {str(i): len(s_only_) + i for i in range(len(shared_r))}
+        cv["hints"] = [None, None, None]
+        gv, reason_v = repl.analyse(cv)
+        if not reason_v and gv:
+            table = np.array([cv["ppos"][i] for i in range(len(s_only_))] + [cv["rpos"][j] for j in range(len(cv["rpos"]))], dtype=float)
+            n_ = len(cv["ppos"])
+            with silenced():
+                spv = Atoms(elements=list(cv["pels"]), positions=table[:n_])
+                rpv = Atoms(elements=list(cv["rels"]), positions=table[len(s_only_):], charges=list(cv["rcharges"]), groups=list(cv["rgroups"]))
+            try:
+                na, ka = mf.replace(s, spv, rpv, case["atol"], cv["hints"], case["seeds"], **kw)
+                check_result(cv, gv, na, stats, "patterns cut from one coordinate table", ka)
+                with silenced():
+                    spv.translate(np.array(m["t"]))
+                    rpv.translate(np.array(m["t"]))
+                nb, kb = mf.replace(s, spv, rpv, case["atol"], cv["hints"], case["seeds"], **kw)
+            except Violation:
+                raise
+            except Exception as e:
+                raise Violation("exception-in-replace", "patterns cut from one coordinate table: %s: %r" % (type(e).__name__, e))
+            check_result(cv, gv, nb, stats, "patterns cut from one coordinate table, both moved with translate()", kb)
+            stats.count("joint-motion:patterns-cut-from-one-table")
     # with a fraction < 1 the random choice of matches must be the same in both runs for the results to be comparable:
     # the RNGs are seeded identically and the number of found matches is the same, so it is
     single = all(len(g["orderings"]) == 1 for g in groups.values()) and k == k2
